@@ -1,7 +1,7 @@
 (* Executable checker for C27 cases.  The harness calls the real lib/shape package and passes every
    float64 as an exact dyadic rational (mantissa, exponent).
    codes: 1  model <> implementation (fit dims or inner box beyond tolerance; rectangular trace not identity)
-          3  oracle hypothesis (oval): cos/sin of the content angle lie in [0,1]
+          3  oracle hypothesis (oval): content + padding*cos / padding*sin (content angle) is >= -1/2
           4  oracle hypothesis (oval): cos*r, sin*r of the fitted ellipse are rx/sqrt2, ry/sqrt2 within 1e-5 relative
           2  oracle hypothesis: a traced end on a non-rectangular shape is within 1px of its outline
          10  inner box of the fitted size is smaller than the content (w,h)
@@ -71,7 +71,7 @@ Definition check_oval (c s cr sr w h px py W H : Q) (ib : box) : list N :=
                       close mW W && close mH H) variants
     && lexists (fun d => let '(dw, dh) := d in
                          box_close (inner_oval (Qred (cr * dw)) (Qred (sr * dh)) W H) ib) variants in
-  flag corr 1 ++ flag (H_unit_b c s) 3 ++ flag (H_radius_b cr sr W H) 4
+  flag corr 1 ++ flag (H_pad_b c s w h px py) 3 ++ flag (H_radius_b cr sr W H) 4
   ++ flag (contains_b tol w h ib) 10
   ++ flag (contains_b tol ((w + px * c) * (1 - rho) - 2) ((h + py * s) * (1 - rho) - 2) ib) 11
   ++ flag (inside_b tol W H ib) 12.
